@@ -437,6 +437,10 @@ func callerNames(r *run) []string {
 }
 
 func main() {
+	if len(os.Args) == 4 && os.Args[1] == "reqid" {
+		cmdReqID(os.Args[2], os.Args[3])
+		return
+	}
 	if len(os.Args) < 5 {
 		fmt.Fprintln(os.Stderr, "usage: c09 run <random N | script FILE> <out>  |  c09 worker <mode> <arg> <from> <out>")
 		os.Exit(3)
